@@ -228,6 +228,25 @@ func (m *MW) StepSwap() {
 	})
 }
 
+// faultableKinds: step kinds into which a storage error may be injected (they never talk to the
+// mint outside their own episodes).
+var faultableKinds = map[string]bool{"fund": true, "swap": true, "melt": true, "resolve": true, "replay": true, "dup": true, "race": true, "internal": true, "mintrace": true}
+
+// StepMaybeFaulted runs a step; when the run is in its fault-injecting configuration the step's
+// first episode may meet one storage error at a drawn position. From then on the oracles that rest
+// on the harness's own beliefs (expected states, honest requests must succeed) are off; the
+// Book's rules over acknowledged outcomes and the drain audit stay on.
+func (m *MW) StepMaybeFaulted(kind int, allowRotate, faults bool) {
+	if faults && faultableKinds[mwKinds[kind]] && m.T.Chance("fault.step", 1, 3) {
+		m.Faulted = true
+		m.Strict = false
+		m.NextPlans = []*FaultPlan{{Node: "A", Kind: "db_error", SeamKind: "db", Pos: 1 + m.T.Choose("fault.pos", 12)}}
+		m.rc.S.Probe("mw_fault_armed")
+	}
+	m.Step(kind, allowRotate)
+	m.NextPlans = nil
+}
+
 // begin opens the episode of a step; fault plans queued in NextPlans apply to this step only.
 func (m *MW) begin() {
 	m.rc.S.BeginEpisode(m.NextPlans...)
@@ -747,7 +766,7 @@ func (m *MW) StepCheckstate() {
 // verifyStates: the harness's own expectation for proofs whose state it knows exactly.
 func (m *MW) verifyStates(mint string, Ys []string, r *Resp) {
 	states, _ := r.Body["states"].([]any)
-	if len(states) != len(Ys) {
+	if len(states) != len(Ys) || m.Faulted {
 		return
 	}
 	exp := map[string]string{}
